@@ -88,6 +88,10 @@ def handle : List Sx → Sx
     match parsePath p, ops.mapM parseOpd, parseFail f with
     | some p, some ops, some f => out (run p ops f)
     | _, _, _ => err "operand"
+  | [.atom "m3mul", sc, .list [r, x]] =>
+    match sc.toBool?, parseOpd r, parseOpd x with
+    | some sc, some r, some x => out (matrix3Mul sc r x)
+    | _, _, _ => err "operand"
   | [.atom "tree", e] =>
     match parseExpr e with
     | some e => out (e.eval.map fun o => (o.shape, o.mask))
